@@ -192,7 +192,8 @@ class DictArray(StorageBase):
             return
         path = self._path()
         path.parent.mkdir(parents=True, exist_ok=True)
-        dump(self._dict, path)
+        # Persist the data, never the mapping object itself (which may be a manager proxy).
+        dump(dict(self._dict.items()), path)
 
     def load(self) -> None:
         """Load the dict storage from disk."""
@@ -242,6 +243,14 @@ class SharedMemoryDictArray(DictArray):
             shape_mask=shape_mask,
             mapping=mapping,
         )
+
+    def load(self) -> None:
+        """Load the persisted data into the shared mapping, which stays a manager proxy."""
+        if self.folder is None:  # pragma: no cover
+            return
+        if not self.folder.exists():
+            return
+        self._dict.update(load(self._path()))
 
     @property
     def dump_in_subprocess(self) -> bool:
